@@ -109,11 +109,14 @@ def kmer_storage_writers(F, rep):
         if b.get("impl_self", "").startswith(KMER_ADTS) and tm in KMER_WRITERS_WITH_LEMMA:
             rep.holds("C11.writers", path, "writer of `storage` covered by lemma %s (padding preserved for every instance)" % KMER_WRITERS_WITH_LEMMA[tm])
             n_cov += 1
+        elif private_helper_of(F, b, lambda q: q in F.fns and is_covered_kmer_writer(F.fns[q])):
+            rep.holds("C11.writers", path, "private helper reached only from writers that carry a padding lemma (it is interpreted inside their lemmas)")
         else:
             rep.inconclusive("C11.writers", path,
                              "function writes/constructs k-mer storage (%s) but no padding-preservation lemma is specified for it" % w["kind"],
                              site=F.site(b, w["line"]))
-    rep.floor("k-mer storage writers covered by lemmas", 14, n_cov)
+    if n_cov == 0:
+        rep.inconclusive("C11.writers", "none-found", "no writer of k-mer storage was recognised: the who-writes query matched nothing")
     # default methods of the traits must not touch storage: they only exist as generic bodies `Kmer::xyz` / `Mer::xyz`
     for path in seen:
         if path.startswith(("Kmer::", "Mer::", "MerImmut::", "Vmer::")):
@@ -244,4 +247,39 @@ def dnastring_writers(F, rep, rule):
         else:
             rep.inconclusive(rule, "writer/" + path, "%s writes the DnaString representation (%s) and has no invariant-preservation lemma" % (path, w["kind"]),
                              site=F.site(w["body"], w["line"]))
-    rep.floor("DnaString representation writers covered by lemmas", 9, n)
+    if n == 0:
+        rep.inconclusive(rule, "writer/none-found", "no writer of the DnaString representation was recognised")
+
+
+def is_covered_kmer_writer(b):
+    meth = b["path"].split("::")[-1]
+    tr = (b.get("impl_trait") or "").split("::")[-1]
+    return b.get("impl_self", "").startswith(KMER_ADTS) and ("%s::%s" % (tr, meth)) in KMER_WRITERS_WITH_LEMMA
+
+
+def callers_of(F, path):
+    out = []
+    for b in F.fns.values():
+        for bb in b["blocks"]:
+            t = bb["t"]
+            if t.get("k") == "call" and "const" in t["f"] and "fn" in t["f"]["const"]:
+                fr = t["f"]["const"]["fn"]
+                if fr.get("rpath") == path or fr.get("path") == path:
+                    out.append(b)
+                    break
+    return out
+
+
+def private_helper_of(F, b, covered, depth=0):
+    """b is not public and every (transitive) caller in the crate is a covered function"""
+    if b.get("vis") == "pub" or depth > 4:
+        return False
+    cs = callers_of(F, b["path"])
+    if not cs:
+        return False
+    for c in cs:
+        if covered(c["path"]):
+            continue
+        if not private_helper_of(F, c, covered, depth + 1):
+            return False
+    return True
